@@ -35,6 +35,34 @@ def lex_case(text: str, accepted: bool) -> dict:
             "tokens": [[str(t[1]), t[2]] for t in toks]}
 
 
+def oracle_case(text: str) -> dict:
+    """what the real regular expressions answer at every position, for the model's matcher oracle, and the real token stream"""
+    from explorerscript.pygments.expslexer import ExplorerScriptLexer
+
+    lx = ExplorerScriptLexer()
+    toks = lx._tokens
+    reach, todo = set(), ["root"]
+    while todo:
+        st = todo.pop()
+        if st in reach or st not in toks:
+            continue
+        reach.add(st)
+        for _, _, ns in toks[st]:
+            if isinstance(ns, tuple):
+                todo += [x for x in ns if isinstance(x, str) and not x.startswith("#")]
+    matches = []
+    rid = 0
+    for st in sorted(reach):           # the numbering of the translator
+        for rexmatch, _, _ in toks[st]:
+            for pos in range(len(text) + 1):
+                m = rexmatch(text, pos)
+                if m:
+                    matches.append([rid, pos, m.end() - pos])
+            rid += 1
+    real = [[str(t[1]), [ord(c) for c in t[2]]] for t in lx.get_tokens_unprocessed(text)]
+    return {"ok": True, "matches": matches, "real": real}
+
+
 def unicode_strings(r: random.Random, n: int) -> list[str]:
     pools = ["abc_XYZ019 \n\t", "'\"\\/*@§$~.,;:{}[]()<>=!&^|+-", "äöüßñé日本語한글", "  \x85\x0b\x0c\x1c\r", "𝔘𝔫𝔦🎉\U0001F600", "\x00\x01\x7f﻿퟿"]
     out = []
@@ -82,8 +110,9 @@ def literal_sources(r: random.Random, n: int) -> list[str]:
 
 
 def main() -> None:
-    run = Run("C17", "exploration")
+    run = Run("C17", "proof")
     run.forbid()
+    run.require_vo(["Pyg/Engine.v", "Gen/PygTable.v", "Pyg/Proofs.v"])
     run.props("Props/C17.v")
     q = run.tier == "quick"
     r = random.Random(f"C17-{run.seed}")
@@ -121,6 +150,22 @@ def main() -> None:
         if o["errors"]:
             run.count("error-tokens-on-arbitrary-text")
         run.count("accepted-sources" if acc else "arbitrary-texts")
+    # correspondence: the extracted token loop (Pyg/Engine.v) on the regenerated table, with the real regular
+    # expressions' answers as oracle, must give the real token stream
+    sub = [t for t, _ in texts if len(t) <= 200][:: (3 if q else 2)]
+    ora = run_impl([("checks.c17:oracle_case", t) for t in sub])
+    okc = [(t, o) for t, o in zip(sub, ora) if o.get("ok")]
+    mod = run_driver([[A("pyg"), [ord(c) for c in t], o["matches"]] for t, o in okc])
+    first_div = None
+    for (t, o), m in zip(okc, mod):
+        same = m.get("r") == "ok" and m["tokens"] == o["real"]
+        run.count("engine-correspondence:" + ("ok" if same else "DIFF"))
+        if not same and first_div is None:
+            first_div = (t, m, o["real"])
+    if first_div is not None:
+        run.correspondence_broken("K-pyg token loop (Pyg/Engine.v vs RegexLexer.get_tokens_unprocessed)",
+                                  "the model's token stream differs from the real lexer's",
+                                  {"text": first_div[0], "model": first_div[1], "real": first_div[2][:40]})
     run.sample({"text": texts[0][0], "tokens": res[0].get("tokens", [])[:8]})
     run.finish(rule="structured strings, random Unicode (astral planes, separators, controls), all strings over a 6-letter alphabet "
                     "up to length 3/4, G_prog sources (accepted ones must yield no error token); each under a timeout")
